@@ -155,6 +155,10 @@ func (cr *caseRunner) run(s scenario) {
 	ev.ElgSub = certainlyEligibleSubseq(c, s, q)
 	// repeats (C02): same process, freshly re-loaded copy, separate process
 	if cr.props["C02"] {
+		// the repetitions are not preceded by a priming search: whatever the long-lived object was asked before, and a
+		// copy that was asked nothing, must all answer alike
+		s := s
+		s.Prime = ""
 		for i := 0; i < cr.reps; i++ {
 			ro, _ := runEntry(c, s, q)
 			ev.Reps = append(ev.Reps, cr.in.answerID(c, ro.hits))
@@ -164,14 +168,14 @@ func (cr *caseRunner) run(s scenario) {
 			if db2, err := database.LoadDatabase(c.file); err == nil {
 				c2 := wrapCorpus(c.name, db2, c.cmds, c.file)
 				ro, _ := runEntry(c2, s, q)
-				// identity by document index, so answers of the two copies are comparable
-				ev.Reps = append(ev.Reps, cr.in.answerID(c2, ro.hits))
+				// identity by content, in the numbering of the long-lived copy
+				ev.Reps = append(ev.Reps, cr.in.answerIDIn(c, c2, ro.hits))
 				ev.RepKind = append(ev.RepKind, "reloaded")
 			}
 		} else if c.fresh != nil { // same content, built again: has never answered a query
 			c2 := wrapCorpus(c.name, c.fresh(), nil, "")
 			ro, _ := runEntry(c2, s, q)
-			ev.Reps = append(ev.Reps, cr.in.answerID(c2, ro.hits))
+			ev.Reps = append(ev.Reps, cr.in.answerIDIn(c, c2, ro.hits))
 			ev.RepKind = append(ev.RepKind, "reloaded")
 		}
 		// "did you mean" suggestions, repeated and on a re-loaded copy
